@@ -222,6 +222,43 @@ class RoleChecker:
             elif not starred and len(given) == 3:
                 s.pairs.append(dict(where='auditok/%s.py:%d' % (mod, call.lineno), func=qual, kind='completeness of %s' % disp, giver='all three', receiver='rate/width/channels', role_g='complete', role_r='complete', ok=True))
 
+    def crossed_forwarding(s, mods=None):
+        """argument-selection rule: in a function with parameters P, a call g(k=v) / positional slot k <- v where v is a bare
+        parameter name of the caller, k != v, and BOTH names are parameters of caller and callee (hop_dur=block_dur,
+        max_length <- min_length ...).  -> list of dict(where, func, callee, param, given)"""
+        out = []
+        for mod, d in s.m.mods.items():
+            if mods and mod not in mods:
+                continue
+            fns = [(None, fn) for fn in d['funcs'].values()] + [(c, fn) for c in d['classes'].values() for fn in c.body if isinstance(fn, ast.FunctionDef)]
+            for cls, fn in fns:
+                P = {a.arg for a in fn.args.args + fn.args.kwonlyargs} - {'self', 'cls'}
+                if len(P) < 2:
+                    continue
+                for call in ast.walk(fn):
+                    if not isinstance(call, ast.Call):
+                        continue
+                    r = s.resolve(call, mod, cls, fn)
+                    if r is None or r[0] not in ('func', 'ctor'):
+                        continue
+                    params = list(r[1])
+                    kwonly = r[3] if len(r) > 3 and isinstance(r[3], list) else []
+                    Q = set(params) | set(kwonly)
+                    pairs = []
+                    for i, a in enumerate(call.args):
+                        if isinstance(a, ast.Starred):
+                            break
+                        if i < len(params):
+                            pairs.append((params[i], a))
+                    pairs += [(k.arg, k.value) for k in call.keywords if k.arg is not None]
+                    qual = '%s.%s' % (cls.name, fn.name) if cls is not None else fn.name
+                    for k, v in pairs:
+                        if isinstance(v, ast.Name) and v.id in P and v.id != k and k in P and v.id in Q and k in Q:
+                            out.append(dict(where='auditok/%s.py:%d' % (mod, call.lineno), func=qual, callee=r[2], param=k, given=v.id))
+                        elif isinstance(v, ast.Name) and v.id == k and k in P and k in Q:
+                            out.append(dict(where='auditok/%s.py:%d' % (mod, call.lineno), func=qual, callee=r[2], param=k, given=v.id, ok=True))
+        return out
+
     def run(s, mods=None):
         for mod, d in s.m.mods.items():
             if mods and mod not in mods:
